@@ -358,3 +358,5 @@ func I16(name string) int16 { return int16(U16(name)) }
 // (creation order); every runnable goroutine may be chosen only at Yield()
 // points. When off (default) every blocking point is a choice point.
 func SchedYieldOnly(on bool) {}
+
+func I32s(name string) int32 { return int32(U32(name)) }
